@@ -101,10 +101,12 @@ func race07Main(args []string) {
 	seed, _ := strconv.ParseUint(args[1], 10, 64)
 	secs, _ := strconv.ParseFloat(args[2], 64)
 	type shared struct {
-		index  be.BEIndex
-		qs     []eQuery
-		seq    []seqAnswer
-		fields []int // fields occurring in the documents
+		index    be.BEIndex
+		qs       []eQuery
+		seq      []seqAnswer
+		fields   []int            // fields occurring in the documents
+		objs     []be.Assignments // ONE object per query, handed to every goroutine (the library only reads an assignment)
+		pristine []be.Assignments // what the shared objects held before the run
 	}
 	var sh []*shared
 	for i := range cases {
@@ -124,6 +126,20 @@ func race07Main(args []string) {
 		for j := range s.qs {
 			s.qs[j].Debug = false
 			s.seq = append(s.seq, answer(idx, &s.qs[j]))
+			o := s.qs[j].build()
+			if len(s.fields) > 0 { // a nil value on a known default-container field (ignored like an absent one)
+				fn := s.fields[j%len(s.fields)]
+				f := fieldName(fn)
+				if _, ok := o[f]; !ok && cases[i].Configs[fn] == "" {
+					o[f] = nil
+				}
+			}
+			s.objs = append(s.objs, o)
+			c := be.Assignments{}
+			for k, v := range o {
+				c[k] = v
+			}
+			s.pristine = append(s.pristine, c)
 		}
 		sh = append(sh, s)
 	}
@@ -263,6 +279,15 @@ func race07Main(args []string) {
 						}
 						s := sh[r.Intn(len(sh))]
 						i := r.Intn(len(s.qs))
+						if r.Chance(35) { // the shared assignment object
+							var d be.DocIDList
+							var e error
+							p := safeCall(func() { d, e = s.index.Retrieve(s.objs[i]) })
+							if (p || e != nil) != s.seq[i].err || (!s.seq[i].err && !reflect.DeepEqual(docIDs(d), s.seq[i].docs)) {
+								report(fmt.Sprintf("query %d through a shared assignment object: concurrent %v sequential %+v", i, d, s.seq[i]))
+							}
+							continue
+						}
 						if a := answer(s.index, &s.qs[i]); !sameAnswer(a, s.seq[i]) {
 							report(fmt.Sprintf("query %d: concurrent %+v sequential %+v", i, a, s.seq[i]))
 						}
@@ -271,6 +296,14 @@ func race07Main(args []string) {
 			}(g)
 		}
 		wg.Wait()
+	}
+	// a retrieval that writes its caller's assignment conflicts with every retrieval reading the same object
+	for _, s := range sh {
+		for i := range s.objs {
+			if !reflect.DeepEqual(s.objs[i], s.pristine[i]) {
+				report(fmt.Sprintf("query %d: a retrieval wrote to the shared assignment object: now %v, was %v", i, s.objs[i], s.pristine[i]))
+			}
+		}
 	}
 	fmt.Printf("RACE07 ops=%d mismatches=%d indexes=%d roaring=%v\n", ops, mismatches, len(sh), ridx != nil)
 	for _, m := range msgs {
